@@ -3,7 +3,7 @@
    extracted OCaml driver and (on a sample) inside Coq by vm_compute. *)
 From Coq Require Import String.
 From TlshV Require Import Model.Machine Model.Tokens Gen.Tables Model.MLength Model.MHexStr Model.MHash
-  Model.MPearson Model.MGenerate Model.MFloat Model.MFinalize Model.MCompare Spec.SpecGenerate Spec.SpecDistance.
+  Model.MPearson Model.MGenerate Model.MFloat Model.MFinalize Model.MCompare Model.MStream Spec.SpecGenerate Spec.SpecDistance.
 Open Scope string_scope.
 Open Scope list_scope.
 Open Scope N_scope.
@@ -23,6 +23,8 @@ Record mcfg := {
   c_len_table : bool;
   c_q : qcfg;
   c_body : N;
+  c_sretry : bool;         (* read loop retries on ErrorKind::Interrupted *)
+  c_sinv : bool;           (* invariant!(len <= buffer.len()) present in the read loop *)
 }.
 
 Definition ccfg_of (c : mcfg) : ccfg :=
@@ -39,7 +41,8 @@ Definition hcfg_of (c : mcfg) : hcfg :=
 Definition default_cfg : mcfg :=
   {| c_strict := false; c_unsafe := false; c_dbg := true; c_len := LenClz;
      c_dec := DecFull; c_enc := EncFull; c_simd_parse := true; c_simd_convert := true;
-     c_low_mem := false; c_double := true; c_len_table := true; c_q := QTableDouble; c_body := 4 |}.
+     c_low_mem := false; c_double := true; c_len_table := true; c_q := QTableDouble; c_body := 4;
+     c_sretry := true; c_sinv := false |}.
 
 Definition cfg_of_flags (fl : list N) : mcfg :=
   let has k := existsb (N.eqb k) fl in
@@ -49,7 +52,8 @@ Definition cfg_of_flags (fl : list N) : mcfg :=
      c_enc := if has 14 then EncMin else if has 13 then EncHalf else EncFull;
      c_simd_parse := has 15; c_simd_convert := has 16; c_low_mem := has 17; c_double := has 18;
      c_len_table := has 19; c_q := if has 21 then QTableDouble else if has 20 then QTable else QNaive;
-     c_body := if has 34 then 4 else if has 33 then 3 else if has 32 then 2 else if has 31 then 1 else 0 |}.
+     c_body := if has 34 then 4 else if has 33 then 3 else if has 32 then 2 else if has 31 then 1 else 0;
+     c_sretry := negb (has 50); c_sinv := has 51 |}.
 
 Definition show_perr (e : parse_error) : tok :=
   match e with
@@ -430,7 +434,7 @@ Definition dispatch_gen (c : mcfg) (op : tok) (args : list tok) : option (list t
         match variant_of vt with
         | Some v =>
             match @update unit gc v (g_init gc v) data with
-            | Ok s => Some (show_gen_res (finalize_exec gc v (options_of 2) s))
+            | Ok s => Some (show_gen_res (finalize_exec gc v (options_of 0) s))
             | _ => Some [S "PANIC"]
             end
         | None => Some bad
@@ -591,6 +595,141 @@ Definition dispatch_cmp (c : mcfg) (op : tok) (args : list tok) : option (list t
     end
   else None.
 
+(* ---- stream / file helpers and string comparison (easy functions) ---- *)
+
+Definition io_kinds : list (list N) :=
+  map sym ["Interrupted"; "NotFound"; "PermissionDenied"; "UnexpectedEof"; "TimedOut"; "WouldBlock"; "BrokenPipe";
+           "InvalidData"; "Other"].
+
+Fixpoint kind_index (l : list (list N)) (k : list N) (i : N) : option N :=
+  match l with
+  | [] => None
+  | x :: r => if list_eqb x k then Some i else kind_index r k (i + 1)
+  end.
+Definition show_kind (k : N) : tok := TS (nth (N.to_nat k) io_kinds (sym "Unknown")).
+
+(* harness::lcg_next *)
+Definition lcg_step (st : N) : N := (st * 1664525 + 1013904223) mod 4294967296.
+Definition lcg_run (st n : N) : N * list N :=
+  let r := N.iter n (fun p => let st' := lcg_step (fst p) in (st', (st' / 16777216) :: snd p)) (st, []) in
+  (fst r, rev_append (snd r) []).
+
+(* the harness's ScriptReader: what its successive read(&mut [u8; buflen]) calls return *)
+Fixpoint split_chunks (fuel : nat) (buflen : N) (d : list N) : list rres :=
+  match fuel with
+  | O => []
+  | Datatypes.S f =>
+      if lenN d =? 0 then []
+      else if lenN d <=? buflen then [RData d]
+      else RData (takeN buflen d) :: split_chunks f buflen (dropN buflen d)
+  end.
+
+Fixpoint gen_chunks (fuel : nat) (buflen st remaining k : N) : list rres :=
+  match fuel with
+  | O => []
+  | Datatypes.S f =>
+      if remaining =? 0 then []
+      else
+        let m := N.min (N.min remaining k) buflen in
+        if m =? 0 then [RData []]   (* k = 0: the reader returns Ok(0) *)
+        else let r := lcg_run st m in RData (snd r) :: gen_chunks f buflen (fst r) (remaining - m) k
+  end.
+
+Fixpoint trace_of_script (fuel : nat) (buflen : N) (t : list tok) : option (list rres) :=
+  match fuel with
+  | O => None
+  | Datatypes.S f =>
+      match t with
+      | [] => Some []
+      | op :: rest =>
+          if is_sym op "d" then
+            match rest with
+            | TB d :: r => option_map (app (split_chunks (Datatypes.S (length d)) buflen d)) (trace_of_script f buflen r)
+            | _ => None
+            end
+          else if is_sym op "gen" then
+            match rest with
+            | TN st :: TN n :: TN k :: r =>
+                option_map (app (gen_chunks (Datatypes.S (N.to_nat (if k =? 0 then 1 else n / (N.min k buflen) + 1))) buflen st n k))
+                           (trace_of_script f buflen r)
+            | _ => None
+            end
+          else if is_sym op "i" then option_map (cons RInterrupted) (trace_of_script f buflen rest)
+          else if is_sym op "e" then
+            match rest with
+            | TS k :: r => match kind_index io_kinds k 0 with
+                           | Some i => option_map (cons (RHard i)) (trace_of_script f buflen r)
+                           | None => None
+                           end
+            | _ => None
+            end
+          else if is_sym op "lie" then
+            match rest with
+            | TN k :: r => option_map (cons (RLie k)) (trace_of_script f buflen r)
+            | _ => None
+            end
+          else None
+      end
+  end.
+
+Definition show_stream_res (r : outcome stream_error hash) : list tok :=
+  out_or r (fun h => [S "ok"; TB (hash_bytes h)])
+         (fun e => match e with SGen g => [S "generr"; show_gerr g] | SIO k => [S "ioerr"; show_kind k] end).
+
+Definition show_side (s : side) : tok := match s with SLeft => S "Left" | SRight => S "Right" end.
+
+Definition dispatch_easy (c : mcfg) (op : tok) (args : list tok) : option (list tok) :=
+  let gc := gcfg_of c in
+  let sc := {| sc_retry := c_sretry c; sc_invariant := c_sinv c |} in
+  if is_sym op "stream" then
+    match args with
+    | vt :: script =>
+        match variant_of vt, trace_of_script (Datatypes.S (length script)) stream_buffer_size script with
+        | Some v, Some tr => Some (show_stream_res (hash_stream sc gc v tr))
+        | _, _ => Some bad
+        end
+    | _ => Some bad
+    end
+  else if is_sym op "file" then
+    match args with
+    | [vt; TN size; TN seed] =>
+        match variant_of vt with
+        | Some v =>
+            let d := snd (lcg_run seed size) in
+            let tr := split_chunks (Datatypes.S (N.to_nat (size / stream_buffer_size + 1))) stream_buffer_size d in
+            Some (show_stream_res (hash_file sc gc v (inr tr)) ++ [S "=="] ++
+                  show_stream_res (lift_gen (hash_buf gc v d)))
+        | None => Some bad
+        end
+    | _ => Some bad
+    end
+  else if is_sym op "nofile" then
+    match args with
+    | [vt] =>
+        match variant_of vt with
+        | Some v => Some (show_stream_res (hash_file sc gc v (inl 1)))
+        | None => Some bad
+        end
+    | _ => Some bad
+    end
+  else if is_sym op "cmpstr" then
+    match args with
+    | [vt; TB l; TB r] =>
+        match variant_of vt with
+        | Some v => Some (out_or (compare_with (hcfg_of c) (ccfg_of c) v l r) (fun d => [S "ok"; TN d])
+                                 (fun e => [S "err"; show_side (fst e); show_perr (snd e)]))
+        | None => Some bad
+        end
+    | _ => Some bad
+    end
+  else if is_sym op "cmpstr_default" then
+    match args with
+    | [TB l; TB r] => Some (out_or (compare_with (hcfg_of c) (ccfg_of c) V_Normal l r) (fun d => [S "ok"; TN d])
+                                   (fun e => [S "err"; show_side (fst e); show_perr (snd e)]))
+    | _ => Some bad
+    end
+  else None.
+
 Definition dispatch (c : mcfg) (line : list tok) : list tok :=
   match line with
   | [] => bad
@@ -606,8 +745,11 @@ Definition dispatch (c : mcfg) (line : list tok) : list tok :=
       | None =>
       match dispatch_cmp c op args with
       | Some r => r
+      | None =>
+      match dispatch_easy c op args with
+      | Some r => r
       | None => [S "MODEL-UNKNOWN-OP"]
-      end end end end
+      end end end end end
   end.
 
 Definition dispatch_flags (fl : list N) (line : list tok) : list tok :=
